@@ -27,7 +27,8 @@ static int mon_print0(void) { return 0; }
 static void verif_exit(int code) { g_exit_code = code; VASSUME(0); }
 #define exit(c) verif_exit(c)
 static int g_open_which;
-static FILE* mon_fopen(void) { return GF_FILE(g_open_which); }
+static FILE* mon_fopen_t(void);
+static FILE* mon_fopen(void) { return g_open_which == 1 ? mon_fopen_t() : GF_FILE(g_open_which); }
 #define fopen(n, m) mon_fopen()
 /* the -f decision is an oracle here (FilterOK itself is under contract in h_toolutils.c) */
 int g_doit;
@@ -116,4 +117,26 @@ void h_ProcessFile_data(void) {
         VREACH("filtered");
     }
     VPOST(gf[0].pos == g_src_pay0 + (long)len + 1, "C07: the input is consumed exactly up to the next record");
+}
+
+/* OpenTarget / CloseTarget: the output starts with the magic $1489 and ends with the end record (0) followed by the creator
+ * string and nothing else -- "PBIND's output is a well-formed code file". */
+static FILE* mon_fopen_t(void) { gf[1].len = 0; gf[1].pos = 0; gf[1].is_open = 1; return GF_FILE(1); }     /* "wb": created / truncated */
+void h_Open_Close_Target(void) {
+    long L1; size_t cl, j;
+    gf_reset(); mk_file(0); mk_file(1); gf_cell_mode = 0; gf_noscript_ptr = NULL;
+    verif_errno = 0; g_exit_code = -1; msg_txt[0] = 'm'; msg_txt[1] = 0; g_open_which = 1; TargFile = NULL;
+    VND(gf[1].w_off, long); VASSUME(gf[1].w_off >= 0 && gf[1].w_off < 2);
+    OpenTarget();
+    VPOST(TargFile == GF_FILE(1) && gf[1].len == 2 && gf[1].pos == 2, "C07: the output file starts with the two magic bytes");
+    VPOST(gf[1].w_val == (gf[1].w_off == 0 ? 0x89 : 0x14), "C07: the magic is $1489, least significant byte first");
+    /* any records in between (ProcessFile appends, see h_ProcessFile_data) */
+    VND(L1, long); VASSUME(L1 >= 2 && L1 <= 0x70000000); gf[1].len = L1; gf[1].pos = L1;
+    cl = 0; while (cl < 16 && Creator[cl]) cl++;
+    VND(j, size_t); VASSUME(j <= cl); gf[1].w_off = L1 + (long)j;
+    CloseTarget();
+    VPOST(gf[1].len == L1 + 1 + (long)cl && !gf[1].is_open, "C07: the output ends with the end-record byte and the creator string, and is closed");
+    VPOST(gf[1].w_val == (j == 0 ? FileHeaderEnd : (unsigned char)Creator[j - 1]), "C07: end record = byte 0 followed by the creator string");
+    VPOST(g_exit_code == -1, "C07: (harness) no I/O error was signalled");
+    VREACH("end");
 }
